@@ -231,6 +231,13 @@ CORNERS = [
     'set "a" begin return end', 'set "a" begin break end', 'repeat 2 set "a" begin break end',
     'duration 5 time 2 hue 3 saturation 4 brightness 5 kelvin 6 red 1 green 2 blue 3',
     'H 5 S 6 B 7 K 8', 'hue H', 'define f with H begin end',
+    'hue ' + '1' * 4301 + '', 'hue -' + '1' * 4301 + '', 'hue {' + '1' * 4301 + ' + 1}', 'hue {1 + ' + '1' * 4301 + '}', 'define m ' + '1' * 4301 + '', 'define m ' + '1' * 4301 + ' hue m',
+    'repeat ' + '1' * 4301 + ' hue 5', 'set ' + '1' * 4301 + '', 'printf ' + '1' * 4301 + '', 'print ' + '1' * 4301 + '', 'get ' + '1' * 4301 + '', 'if ' + '1' * 4301 + ' hue 5',
+    'assign x ' + '1' * 4301 + '', 'hue [round ' + '1' * 4301 + ']', 'set "a" zone ' + '1' * 4301 + '', 'set "a" row 1 ' + '1' * 4301 + '', 'time ' + '1' * 4301 + '',
+    'repeat with i from 1 to ' + '1' * 4301 + ' hue i', 'repeat in ' + '1' * 4301 + ' as x hue 5', 'hue 5\nsaturation ' + '1' * 4301 + '\n',
+    'define f with a return ' + '1' * 4301 + '', 'hue ' + '0' * 4301, 'hue ' + '1' * 4300, 'hue ' + '1' * 4301 + '.5',
+    'repeat with i in "a" hue 5', 'repeat with i in', 'repeat 5 with i in "a" hue i', 'repeat all as x with i in "a" hue i',
+    'repeat with i in all as x hue 5', 'repeat with in in "a" hue 5',
     'hue {1 + 2 * }', 'hue {1 + 2 * 3 ^ }', 'hue {1 + 2 ^ (3}', 'repeat with i from 1 to i hue i',
     'repeat with i from i to 5 hue i', 'assign i 1 repeat with i from i to i hue i',
     'repeat 3 with i cycle i hue i', 'repeat with i in i hue 5', 'repeat with i from 1 to 5 repeat with j from i to 5 hue j',
